@@ -25,6 +25,21 @@ CLAIMS = {
     "C05": ("pyvc VCs (_compute_star_power_data loop, SpecialEvent predicates, cursor threading) + SMT lemma L5",
             "Half-open membership and first-covering-phrase index for phrases ordered by start tick; the carried cursor is proved invisible (invariant: every phrase before the cursor has ended).",
             "C05"),
+    "C07": ("rxvc SMT-regex obligations on the shipped N/S/E patterns (accept, capture competitors with markers, shape) + pyvc VCs of the three from_chart_line bodies and the dispatcher",
+            "For all strings: every canonical N/S 2/E line is accepted and decoded with exactly the written integers / word (captures proved by the no-better-competitor queries under the assumed leftmost-priority contract of re); lines of any other shape are rejected; decoders map groups to fields in the stated order.",
+            "7.2, C07"),
+    "C08": ("rxvc obligations on B/TS/A + pyvc VCs (BPMEvent.from_parsed_data incl. the three-decimal validation, TimeSignatureEvent/AnchorEvent constructors)",
+            "B <n> accepted for every n (<= 1e11) and bpm == RN(n/1000) (nearest float; validation proved never to reject it: z3+cvc5), TS u [l] -> u / 2**l (default 4), A <us> -> exactly us microseconds; ticks/values preserved for any digit count. Holds after the fix: commit eebc1c4.",
+            "C08"),
+    "C09": ("rxvc classification/disjointness/capture obligations on the lyric/section/text patterns + kind order read from the AST + pyvc dispatcher VCs (first match wins)",
+            "lyric/section/text classification and verbatim values for all event texts; each line lands in exactly one list, at its tick, in file order (dispatcher postcondition: ordered, complete filter-map per kind).",
+            "C09"),
+    "C10": ("rxvc obligations on the 24 shipped field patterns (captures, 276 pairwise disjointness queries, ground facts on converters/defaults) + pyvc VCs of Metadata.from_chart_lines (closures inlined, scan loop invariant)",
+            "Each field decoded from its first matching line with quotes stripped / int / enum member; absent optional fields take the documented defaults; absent Resolution raises MissingRequiredField; no line can feed two fields (disjoint languages).",
+            "C10"),
+    "C14": ("pyvc VCs of parse_data_from_chart_lines for the three kind tuples (ghost source/position arrays: ordered complete filter-map, conservation) + rxvc pairwise disjointness",
+            "Every line contributes one datum to the first kind that matches or one warning; conservation events + warnings = lines; within sync and instrument sections no string is claimed by two kinds. The 'moving unparsable lines changes nothing' clause follows from the filter-map characterisation (the filter-map algebra step is not re-proved mechanically).",
+            "C14"),
     "C11": ("pyvc VCs (_index_of_proximal_event loop, timestamp_at_tick, every constructor, builders)",
             "Two-sided contract of the query (same result for every admissible hint, ValueError beyond the governing event, index = last tempo event at or before the tick); every constructor stores TS(be,tick) or raises ValueError for ANY previous event / hint, with no sortedness assumption on body lines.",
             "C11"),
